@@ -25,7 +25,7 @@ FIELD_OF = {1: "best_block", 2: "newest_valid_block", 3: "ancestor_block",
             5: "ancestor_receipts_root", 0x81: "updating.best_block",
             0x82: "updating.newest_valid_block", 0x84: "updating.next_expected_block"}
 NETWORKS = {1: "mainnet", 2: "testnet", 3: "regtest"}
-REQUIRED_LABELS = {t: ["history", "history>=4", "interlude:getPubKey", "interlude:params", "interlude:advance", "interlude:sign_auth", "interlude:v1", "reconnect", "hb-fault", "v1", "cmd:getPubKey", "cmd:blockchainState", "cmd:blockchainParameters",
+REQUIRED_LABELS = {t: ["history", "history>=4", "interlude:getPubKey", "interlude:params", "interlude:advance", "interlude:sign_auth", "interlude:v1", "interlude:link-failure", "interlude:v1-link-failure", "reconnect", "hb-fault", "v1", "cmd:getPubKey", "cmd:blockchainState", "cmd:blockchainParameters",
                        "cmd:signerHeartbeat", "cmd:uiHeartbeat", "uihb:ok", "uihb:device-error",
                        "diff:0", "diff:max", "sig:0x31", "stale-frame-refused|stale-frame-accepted"] for t in ("quick", "thorough")}
 
@@ -170,6 +170,8 @@ def run_case(c):
         if p is not None and q.get("interlude"):
             w.mode_error = False
             labels.extend(interlude(p, w, q["interlude"], bool(c.get("v1"))))
+            if labels[-1] == "manager-stopped":
+                break
             if len(c["steps"]) >= 4:
                 labels.append("history>=4")
         mark = len(w.log)
